@@ -17,6 +17,7 @@ mode="${1:-}"; arg="${2:-quick}"
 
 race=""
 case "$mode" in C09) race="-race";; esac
+if [ "$mode" = replay ] && grep -q '"property": "C09"' "$arg" 2>/dev/null; then race="-race"; fi
 [ "${VERIF_RACE:-}" = 1 ] && race="-race"
 
 build() {
@@ -40,10 +41,14 @@ build() {
 
 build || exit 2
 if [ "$mode" = replay ]; then
+  [ -n "$race" ] && export GORACE="log_path=$SCR/race halt_on_error=0 history_size=2"
   "$SCR/b/vcheck" -replay "$arg"; exit $?
 fi
 if [ "$mode" = trace ]; then
   shift; "$SCR/b/vcheck" "$@"; exit $?
+fi
+if [ -n "$race" ]; then
+  export GORACE="log_path=$SCR/race halt_on_error=0 history_size=2"
 fi
 "$SCR/b/vcheck" -prop "$mode" -tier "$arg"
 exit $?
